@@ -97,6 +97,8 @@ def _tasks(tier, seed):
     for n in (1, 2):
         out.append({"fn": "loop", "kwargs": {"n": n, "via": "ctor", "flags": "sym"}, "label": f"loop/writes=symbolic/n={n}", "caps": {"max_seconds": 300}})
     out.append({"fn": "loop", "kwargs": {"n": 1, "via": "ctor", "flags": "sym", "cluster_parity": 0}, "label": "loop/writes=symbolic/n=1/clusters_first"})
+    for kind in ("ccd", "cmos", "mkid", "apd"):
+        out.append({"fn": "reset_ieee", "kwargs": {"kind": kind}, "label": f"reset_ieee/{kind}", "solver": "cvc5", "cross_check": False})
     if tier == "thorough":
         out.append({"fn": "loop", "kwargs": {"n": 2, "via": "ctor", "flags": "sym", "cluster_parity": 0}, "label": "loop/writes=symbolic/n=2/clusters_first"})
     return out
@@ -392,6 +394,30 @@ def loop(n, via, flags, cluster_parity=1):
     vx.observe("pixel_final", [symnp.asarray(r["pixel_final"]).elems() for r in lasts])
 
 
+def reset_ieee(kind):
+    """IEEE-754 layer of the reset: whatever the pixel and charge buffers hold when a step or a run ends - NaN and infinities
+    included (a division by a dead pixel's response, an overflow) - they read as exactly zero after the reset."""
+    import numpy as np
+
+    from .c08_keys import _make_det
+
+    det = _make_det(kind)
+    det.geometry._row, det.geometry._col = SHAPE
+    det._initialize()
+    n = SHAPE[0] * SHAPE[1]
+    pv = [vx.fp(f"pixel_{i}") for i in range(n)]
+    cv = [vx.fp(f"charge_{i}") for i in range(n)]
+    with Patch() as p:
+        p.numpy(*DATA_MODULES)
+        det.pixel._array = symnp.SymArray.from_elems(pv, SHAPE, np.float64)
+        det.charge._array = symnp.SymArray.from_elems(cv, SHAPE, np.float64)
+        det.empty(True)
+        pix = symnp.asarray(det.pixel.array).elems()
+        chg = symnp.asarray(det.charge.array).elems()
+    vx.prove(f"C02/buckets/reset_ieee/pixel/{kind}", vx.all_of([e == 0 for e in pix]))
+    vx.prove(f"C02/buckets/reset_ieee/charge/{kind}", vx.all_of([e == 0 for e in chg]))
+
+
 def fidelity_loop(kwargs, w):
     import numpy as np
 
@@ -499,6 +525,25 @@ def replay(oid, kwargs, model, data):
             if not np.allclose(np.asarray(r.steps), exp, rtol=1e-12, atol=0) or not np.allclose(np.asarray(r.times), ts):
                 return True, {"steps": list(map(float, r.steps)), "expected": exp.tolist()}
         return False, {}
+    if data["fn"] == "reset_ieee":
+        from .c08_keys import _make_det
+
+        det = _make_det(kwargs["kind"])
+        det.geometry._row, det.geometry._col = SHAPE
+        det._initialize()
+        n = SHAPE[0] * SHAPE[1]
+
+        def fv(name):
+            v = model.get(name, 0.0)
+            return float("nan") if v is None else float(v)
+
+        det.pixel._array = np.array([fv(f"pixel_{i}") for i in range(n)]).reshape(SHAPE)
+        det.charge._array = np.array([fv(f"charge_{i}") for i in range(n)]).reshape(SHAPE)
+        before = [det.pixel._array.tolist(), det.charge._array.tolist()]
+        with np.errstate(all="ignore"):
+            det.empty(True)
+        pix, chg = np.asarray(det.pixel.array), np.asarray(det.charge.array)
+        return bool(not np.all(pix == 0) or not np.all(chg == 0)), {"before_reset": before, "pixel_after_reset": pix.tolist(), "charge_after_reset": chg.tolist()}
     # loop
     n, via, flags = kwargs["n"], kwargs["via"], kwargs["flags"]
 
